@@ -710,6 +710,17 @@ def solve(em, db, width):
                 r = solve(DARK, db_dark(), width)
                 return drop_contr(extend_satisfiable(r))
 
+def normalize_dfactoid(df):
+    """Divide a factoid by the gcd of its variable coefficients (rounding the constant down).
+
+    solve (in particular one_var_analysis) assumes that every factoid in the database
+    has been normalized in this way.
+    """
+    g = functools.reduce(gcd, df.factoid.key, 0)
+    if g > 1:
+        return dfactoid(Factoid([c // g for c in df.factoid]), GCDCheck(df.deriv))
+    return df
+
 def solve_matrix(matrix, mode=EXACT):
     """
     Give some factoids, return the result.
@@ -717,7 +728,12 @@ def solve_matrix(matrix, mode=EXACT):
     fs = [Factoid(f) if isinstance(f, collections.abc.Iterable) else f for f in matrix]
     db = dict()
     for ft in fs:
-        insert_db(db, dfactoid(ft, ASM(ft)))
+        df = normalize_dfactoid(dfactoid(ft, ASM(ft)))
+        if df.factoid.is_false_factoid():
+            db = Contr(df.deriv)
+            break
+        elif not df.factoid.is_true_factoid():
+            insert_db(db, df)
     r = solve(EXACT, db, len(matrix[0]))
     if isinstance(r, Satisfiable):
         return "SAT", r.store
@@ -798,7 +814,7 @@ class OmegaHOL:
 
     def gcd_pt(self, vars, pt):
         fact = term_to_factoid(vars, pt.prop)
-        g = functools.reduce(gcd, fact[:-1])
+        g = functools.reduce(gcd, fact[:-1], 0)
         assert g > 1
         pt1 = proofterm.ProofTerm('int_const_ineq', term.Int(g) > term.Int(0))
         pt2 = pt
@@ -850,7 +866,11 @@ class OmegaHOL:
 
     def handle_unsat_result(self, res):
         if isinstance(res, Contr):
-            return self.handle_unsat_result(res.deriv)
+            pt = self.handle_unsat_result(res.deriv)
+            if pt.prop.is_less_eq() and pt.prop.arg.is_number(): # ⊢ 0 <= -3 (a constant input constraint)
+                pt_less_zero = proofterm.ProofTerm('int_const_ineq', term.less(term.IntType)(pt.prop.arg, term.Int(0)))
+                return logic.apply_theorem('int_zero_less_eq_neg', pt_less_zero, pt)
+            return pt
         
         elif isinstance(res, ASM):
             return proofterm.ProofTerm.assume(self.fact_hol[res.t])
